@@ -163,7 +163,7 @@ def run(ctx, rep):
             rep.check(bool(pre_c), "R3", key(pl, c, "fill-or-kill return cancels the remainder") + " @" + ";".join(
                 "%s=%s" % g for g in gs if "price" in g[0] or "available_size" in g[0] or "side" in g[0]), pl, c)
     rep.floor("R3", "FAILURE returns in SimulatedOrder.place", n_fail, 7)
-    rep.floor("R3", "fill-or-kill returns in SimulatedOrder.place", n_fok, 6)
+    rep.floor("R3", "fill-or-kill returns in SimulatedOrder.place", n_fok, 2)
     # suspension lapse
     ca = prog.own_method("SimulatedOrder", "__call__")
     cfgc = ctx.cfg(ca)
@@ -248,7 +248,7 @@ def run(ctx, rep):
             good = cs.func.qual == "SimulatedOrder.place" and utext(cs.node.args[2]) == "size" and utext(cs.node.args[1]) == "price"
             rep.check(good, "R4", "caller of %s: %s" % (fn, key(cs.func, cs.node)), cs.func, cs.node,
                       "the crossing match assumes a fresh order and takes the order's full size")
-    rep.floor("R4", "calls of the crossing-match helpers", sum(len(v) for v in pl_calls.values()), 6)
+    rep.floor("R4", "calls of the crossing-match helpers", sum(len(v) for v in pl_calls.values()), 2)
     sz = [s for s in walk_nodes(pl.node.body, ast.Assign) if utext(s.targets[0]) == "size"]
     rep.check(len(sz) == 1 and utext(sz[0].value) == "self.order.order_type.size", "R4",
               key(pl, None, "`size` is the order's requested size"), pl)
